@@ -49,6 +49,7 @@ type tgen struct {
 	nprobe int
 	defs   []string // top-level definitions hoisted before the steps (macros)
 	tweak  bool     // (tweak x) and salt are defined by the prelude
+	mlit   string   // literal sub-property: the def program defines (mlit)
 }
 
 func (g *tgen) n(lo, hi int, label string) int { return rapid.IntRange(lo, hi).Draw(g.t, label) }
@@ -860,8 +861,98 @@ func (g *tgen) stdlibStep() string {
 	}
 }
 
+// intLit renders a literal of small ints together with its canonical value.
+func (g *tgen) intLit() (body, canon string) {
+	a := g.atoms(ekInt, g.n(2, 5, "mln"))
+	return "(" + strings.Join(a, " ") + ")", "'(" + strings.Join(a, " ") + ")"
+}
+
+// expect wraps expr in a probe whose TAG states the canonical value the
+// expression must have ("=<canon>"); the oracles check every such event.
+func expect(canon, expr string) string {
+	return "(probe \"=" + canon + "\" " + expr + ")"
+}
+
+// macroStep calls macros at ONE call site that is reached several times --
+// across the k loads of the Program, inside a loop, inside a function called
+// repeatedly -- where every expansion must be a fresh one: macros defined by
+// an earlier load in the same runtime (the prelude's pm-*; the literal
+// sub-property's mlit) or by the program itself.
+func (g *tgen) macroStep() string {
+	g.route("shape:macro-call-site-reached-again")
+	g.sinkRoute("stable-sort", vx{src: "macro-template"})
+	cmp := g.oneOf("mcmp", "<", ">")
+	tag := g.probeTag
+	if g.mlit != "" {
+		// literal sub-property: the model of (mlit) is the case's literal
+		obs := func() string { g.nprobe++; return fmt.Sprintf("(probe \"obsm%d\" (mlit))", g.nprobe) }
+		sort := func(e string) string { return g.sortCall(g.lits[0].ek, e) }
+		switch g.u(0, 3, "mlitshape") {
+		case 0:
+			return g.guarded("(dotimes (i 3) (probe " + tag() + " " + sort(obs()) + "))")
+		case 1:
+			g.nmac++
+			fn := fmt.Sprintf("cs%d", g.nmac)
+			return "(defun " + fn + " () " + sort(obs()) + ")\n" + g.guarded("(probe "+tag()+" ("+fn+") ("+fn+") ("+fn+"))")
+		case 2:
+			return g.guarded("(probe " + tag() + " " + sort(obs()) + ")")
+		default:
+			return g.guarded("(probe " + tag() + " (elpspath:?set! (slice 'vector " + sort(obs()) + " 0 1) 0 99))")
+		}
+	}
+	shapes := 5
+	if g.tweak {
+		shapes = 13
+	}
+	switch g.u(0, shapes, "macroshape") {
+	case 0, 1:
+		// program-defined template literal, one call site in a loop
+		body, canon := g.intLit()
+		g.nmac++
+		m := fmt.Sprintf("mtl%d", g.nmac)
+		g.defs = append(g.defs, "(defmacro "+m+" () (quasiquote (quote "+body+")))")
+		return g.guarded("(dotimes (i 3) (probe " + tag() + " (stable-sort " + cmp + " " + expect(canon, "("+m+")") + ")))")
+	case 2, 3:
+		// ... inside a function called repeatedly
+		body, canon := g.intLit()
+		g.nmac++
+		m, fn := fmt.Sprintf("mtl%d", g.nmac), fmt.Sprintf("cs%d", g.nmac)
+		g.defs = append(g.defs, "(defmacro "+m+" () (quasiquote (quote "+body+")))")
+		return "(defun " + fn + " () (stable-sort " + cmp + " " + expect(canon, "("+m+")") + "))\n" +
+			g.guarded("(probe "+tag()+" ("+fn+") ("+fn+") ("+fn+"))")
+	case 4, 5:
+		// program-defined macro whose template binds a literal the body sorts
+		body, canon := g.intLit()
+		g.nmac++
+		m := fmt.Sprintf("mwl%d", g.nmac)
+		g.defs = append(g.defs, "(defmacro "+m+" (&rest body) (quasiquote (let ([tl '"+body+"]) (unquote-splicing body))))")
+		return g.guarded("(dotimes (i 2) (probe " + tag() + " (" + m + " (list " + expect(canon, "tl") + " (stable-sort " + cmp + " tl)))))")
+	case 6:
+		return g.guarded("(probe " + tag() + " (pm-global 1 2) (pm-count) (pm-gensym))")
+	case 7:
+		return "(set 'epoch (+ epoch 1))\n" + g.guarded("(probe "+tag()+" (pm-global salt))")
+	case 8:
+		return g.guarded("(dotimes (i 3) (probe " + tag() + " (pm-count) (pm-gensym)))")
+	case 9:
+		return g.guarded("(dotimes (i 3) (probe " + tag() + " (stable-sort " + cmp + " " + expect("'(3 1 2)", "(pm-lit)") + ")))")
+	case 10:
+		g.nmac++
+		fn := fmt.Sprintf("cs%d", g.nmac)
+		return "(defun " + fn + " () (list (pm-count) (stable-sort " + cmp + " " + expect("'(3 1 2)", "(pm-lit)") + ")))\n" +
+			g.guarded("(probe "+tag()+" ("+fn+") ("+fn+"))")
+	case 11:
+		return g.guarded("(probe " + tag() + " (pm-template (list " + expect("'(30 10 20)", "tl") + " (stable-sort " + cmp + " tl))))")
+	case 12:
+		return "(set 'seen (cons " + fmt.Sprint(g.n(0, 9, "sv")) + " seen))\n" + g.guarded("(probe "+tag()+" (pm-seen (pm-count)))")
+	default:
+		return g.guarded("(probe " + tag() + " (stable-sort " + cmp + " (pm-lit)) (elpspath:?set! (slice 'vector " + expect("'(3 1 2)", "(pm-lit)") + " 0 2) 0 99))")
+	}
+}
+
 func (g *tgen) step() string {
-	switch g.u(0, 12, "step") {
+	switch g.u(0, 15, "step") {
+	case 13, 14, 15:
+		return g.macroStep()
 	case 12:
 		return g.guarded("(probe " + g.probeTag() + " " + g.stdlibStep() + ")")
 	case 11:
@@ -967,6 +1058,16 @@ func (g *tgen) program(maxSteps int) string {
 	return b.String()
 }
 
+const preludeMacros = `(set 'epoch 0)
+(set 'mcount 0)
+(defmacro pm-global (&rest xs) (quasiquote (list (unquote epoch) (unquote salt) (unquote-splicing xs))))
+(defmacro pm-count () (set 'mcount (+ mcount 1)) mcount)
+(defmacro pm-gensym () (quasiquote (quote (unquote (gensym)))))
+(defmacro pm-lit () (quasiquote (quote (3 1 2))))
+(defmacro pm-template (&rest body) (quasiquote (let ([tl '(30 10 20)]) (unquote-splicing body))))
+(defmacro pm-seen (x) (quasiquote (list (quote (unquote seen)) (unquote x))))
+`
+
 // prelude is the per-runtime (per-goroutine) private part: it defines salt and
 // tweak differently in different variants.
 func genPrelude(t *rapid.T, i int) string {
@@ -982,6 +1083,11 @@ func genPrelude(t *rapid.T, i int) string {
 		"(progn (set 'seen (cons (length x) seen)) x)",
 	}).Draw(t, "tweak")
 	out := fmt.Sprintf("(set 'salt %d)\n(set 'variant %d)\n(set 'seen '())\n(defun tweak (x) %s)\n", salt, i, tw)
+	// macros that exist in the runtime BEFORE the shared program is loaded
+	// (the program only calls them): their expansion depends on a global read
+	// at expansion time, on a counter they bump, on gensym, or hands out a
+	// template literal that the caller may mutate in place
+	out += preludeMacros
 	// private activity: definitions, packages, schema types, counters,
 	// containers -- what a runtime evaluates, defines, mutates for itself
 	for k := rapid.IntRange(0, 4).Draw(t, "nprivate"); k > 0; k-- {
